@@ -1,4 +1,5 @@
 import LentilVerif.Model.Units
+import LentilVerif.Gen.InterpGrid
 /-! C13 — spectrum arithmetic (`Spectrum._ufunc`, `_interp_common`, `_sampling`, `_intersect`). Mathlib-free, over `Rat`. -/
 namespace Lentil.Spec
 open Gen Lentil.Units
@@ -23,13 +24,16 @@ def samplingOf (m : Sampling) (w1 w2 : List Rat) : Option Rat :=
   | .right => minDiff w2
   | .step d => some d
 
-/-- the guard `tol = 1e-9·Δ` of `_interp_common` -/
-def gridTol (dw : Rat) : Rat := dw / 1000000000
+/-- the guard `tol` of `_interp_common` (generated from the source: `Gen.interpTol`) -/
+def gridTol (dw : Rat) : Rat := Gen.interpTol dw
 
-/-- number of intervals of the common grid: `ceil((max − min − tol)/Δ)` -/
-def gridNum (mn mx dw : Rat) : Int := ((mx - mn - gridTol dw) / dw).ceil
+/-- number of intervals of the common grid (generated: every assignment to `num` in `_interp_common`) -/
+def gridNum (mn mx dw : Rat) : Int := Gen.interpNum mn mx dw (gridTol dw)
 
-def commonGrid (mn mx dw : Rat) : List Rat := linspace mn mx ((gridNum mn mx dw).toNat + 1)
+/-- `np.linspace(start, stop, count)` with the generated arguments -/
+def commonGrid (mn mx dw : Rat) : List Rat :=
+  linspace (Gen.interpStart mn mx (gridNum mn mx dw)) (Gen.interpStop mn mx (gridNum mn mx dw))
+    (Gen.interpCount mn mx (gridNum mn mx dw)).toNat
 
 def clip (lo hi x : Rat) : Rat := if x < lo then lo else if hi < x then hi else x
 
@@ -45,8 +49,8 @@ def interpCommon (s1 s2 : Spectrum) (m : Sampling) (fill : Rat) : Except Err (Li
     match samplingOf m s1.wave s2.wave with
     | none => .error .valueError
     | some dw =>
-      let mn := min lo1 lo2
-      let mx := max hi1 hi2
+      let mn := Gen.interpMin lo1 lo2
+      let mx := Gen.interpMax hi1 hi2
       let g := commonGrid mn mx dw
       .ok (g, g.map (operandAt s1 lo1 hi1 (gridTol dw) fill), g.map (operandAt s2 lo2 hi2 (gridTol dw) fill))
   | _, _, _, _ => .error .valueError
